@@ -30,10 +30,10 @@ Theorem ddt_gauss_kin_ctor (inc nrm : bool) zl zs mu sg j0 j1 v0 v1 (cm cj : val
     (kin_args (VList [num v0; num v1]) (VList [num j0; num j1]) cm cj inc nrm) rg cu o cu []
   /\ field o ["_kinlikelihood"; "_normalized"] = Some (VBool nrm)
   /\ field o ["_kinlikelihood"; "_sigma_sys_error_include"] = Some (VBool inc)
-  /\ field o ["_kinlikelihood"; "_sigma_v_measured"] = Some (VList [num v0; num v1])
-  /\ field o ["_kinlikelihood"; "_j_model"] = Some (VList [num j0; num j1])
-  /\ field o ["_kinlikelihood"; "_error_cov_measurement"] = Some cm
-  /\ field o ["_kinlikelihood"; "_error_cov_j_sqrt"] = Some cj
+  /\ field o ["_kinlikelihood"; "_sigma_v_measured"] = Some (VArr [num v0; num v1])
+  /\ field o ["_kinlikelihood"; "_j_model"] = Some (VArr [num j0; num j1])
+  /\ field o ["_kinlikelihood"; "_error_cov_measurement"] = Some (arr cm)
+  /\ field o ["_kinlikelihood"; "_error_cov_j_sqrt"] = Some (arr cj)
   /\ field o ["_ddt_gauss_likelihood"; "_ddt_mean"] = Some (num mu)
   /\ field o ["_ddt_gauss_likelihood"; "_ddt_sigma"] = Some (num sg)
   /\ field o ["num_data"] = Some (VInt (1 + 2)).
@@ -45,8 +45,8 @@ Theorem ddt_hist_kin_ctor (inc nrm : bool) zl zs (samples weights : val) j0 j1 v
     (kin_args (VList [num v0; num v1]) (VList [num j0; num j1]) cm cj inc nrm ++ [("ddt_weights", weights)]) rg cu o cu []
   /\ field o ["_kinlikelihood"; "_normalized"] = Some (VBool nrm)
   /\ field o ["_kinlikelihood"; "_sigma_sys_error_include"] = Some (VBool inc)
-  /\ field o ["_kinlikelihood"; "_sigma_v_measured"] = Some (VList [num v0; num v1])
-  /\ field o ["_kinlikelihood"; "_j_model"] = Some (VList [num j0; num j1])
+  /\ field o ["_kinlikelihood"; "_sigma_v_measured"] = Some (VArr [num v0; num v1])
+  /\ field o ["_kinlikelihood"; "_j_model"] = Some (VArr [num j0; num j1])
   /\ field o ["_tdLikelihood"; "normalized"] = Some (VBool nrm)
   /\ field o ["_tdLikelihood"; "ddt_weights"] = Some weights
   /\ field o ["_tdLikelihood"; "args"] = Some (VList [num zl; num zs; samples]).
